@@ -157,18 +157,20 @@ theorem drain_lim (p : Plan) (rp : RootParams) :
       (∀ i ∈ qInos st.walk.queue, i ∉ st.walk.visited) →
       match foldLim p st.res (checksL p rp (bfsEvents rp fuel st.walk.queue)) with
       | .error a => drainQueue p rp fuel st = .error a
-      | .ok rs' => ∃ w', drainQueue p rp fuel st = .ok { res := rs', walk := w' }
+      | .ok rs' => ∃ w', drainQueue p rp fuel st = .ok { res := rs', walk := w' } ∧
+          (limitReached p rs' = false → ∀ i, i ∈ w'.visited → i ∈ st.walk.visited ∨ i ∈ qInos st.walk.queue)
   | 0, st, _, _, _ => by
     simp only [bfsEvents, checksL_nil, foldLim, drainQueue]
-    exact ⟨st.walk, rfl⟩
+    exact ⟨st.walk, rfl, fun _ i h => Or.inl h⟩
   | fuel + 1, st, hg, hnd, hfr => by
     by_cases hl : limitReached p st.res = true
     · rw [foldLim_reached p st.res hl]
-      exact drain_reached p rp (fuel + 1) st hl
+      obtain ⟨w', hw'⟩ := drain_reached p rp (fuel + 1) st hl
+      exact ⟨w', hw', fun h => by rw [hl] at h; contradiction⟩
     · cases hq : st.walk.queue with
       | nil =>
         simp only [bfsEvents, checksL_nil, foldLim, drainQueue, hq]
-        exact ⟨st.walk, rfl⟩
+        exact ⟨st.walk, rfl, fun _ i h => Or.inl h⟩
       | cons it q =>
         rw [hq] at hg hnd hfr
         simp only [bfsEvents]
@@ -195,7 +197,8 @@ theorem drain_lim (p : Plan) (rp : RootParams) :
             simp only
             by_cases hr1 : limitReached p r1 = true
             · rw [foldLim_reached p r1 hr1]
-              exact drain_reached p rp fuel { res := r1, walk := w1 } hr1
+              obtain ⟨w', hw'⟩ := drain_reached p rp fuel { res := r1, walk := w1 } hr1
+              exact ⟨w', hw', fun h => by rw [hr1] at h; contradiction⟩
             · have hr1' : limitReached p r1 = false := by simpa using hr1
               rw [hk2 hr1']
               have hgq : QGood (q ++ kidsItems rp it.path it.canon (calcDepth it.canon - rp.base + 1) it.kids) := by
@@ -207,7 +210,31 @@ theorem drain_lim (p : Plan) (rp : RootParams) :
                 { res := r1, walk := afterKids rp it.path it.canon (calcDepth it.canon - rp.base + 1) { st.walk with queue := q } it.kids }
                 hgq i3 i4
               simp only [afterKids] at ih ⊢
-              exact ih
+              cases hf2 : foldLim p r1 (checksL p rp (bfsEvents rp fuel (q ++ kidsItems rp it.path it.canon (calcDepth it.canon - rp.base + 1) it.kids))) with
+              | error a => rw [hf2] at ih; exact ih
+              | ok rs' =>
+                rw [hf2] at ih
+                obtain ⟨w', h1, h4⟩ := ih
+                refine ⟨w', h1, fun hnr i hi => ?_⟩
+                have hsplit := inodes_split it.kids
+                rcases h4 hnr i hi with h | h
+                · rcases List.mem_append.mp h with h' | h'
+                  · exact Or.inl h'
+                  · right
+                    rw [topInos_eq] at h'
+                    split at h'
+                    · exact List.mem_append.mpr (Or.inl (hsplit.mem_iff.mpr (List.mem_append.mpr (Or.inl h'))))
+                    · simp at h'
+                · right
+                  have hqa : qInos (q ++ kidsItems rp it.path it.canon (calcDepth it.canon - rp.base + 1) it.kids) =
+                      qInos q ++ qInos (kidsItems rp it.path it.canon (calcDepth it.canon - rp.base + 1) it.kids) := by
+                    simp [qInos, List.flatMap_append]
+                  rw [hqa, qInos_items] at h
+                  rcases List.mem_append.mp h with h' | h'
+                  · exact List.mem_append.mpr (Or.inr h')
+                  · split at h'
+                    · exact List.mem_append.mpr (Or.inl (hsplit.mem_iff.mpr (List.mem_append.mpr (Or.inr h'))))
+                    · simp at h'
         · have hlf : it.listable = false := by cases h : it.listable <;> simp_all
           simp only [hlf, Bool.not_false, if_true, Bool.false_eq_true, if_false]
           have hgq : QGood q := fun x hx => hg x (by simp [hx])
@@ -217,7 +244,15 @@ theorem drain_lim (p : Plan) (rp : RootParams) :
             { st with walk := { st.walk with queue := q, errCount := st.walk.errCount + 1, errPaths := st.walk.errPaths ++ [it.path] } }
             hgq (List.nodup_append.mp hnd).2.1 (fun i hi => hfr i (List.mem_append.mpr (Or.inr hi)))
           simp only at ih
-          exact ih
+          cases hf : foldLim p st.res (checksL p rp (bfsEvents rp fuel q)) with
+          | error a => rw [hf] at ih; simpa using ih
+          | ok rs' =>
+            rw [hf] at ih
+            obtain ⟨w', h1, h4⟩ := ih
+            refine ⟨w', h1, fun hnr i hi => ?_⟩
+            rcases h4 hnr i hi with h | h
+            · exact Or.inl h
+            · exact Or.inr (List.mem_append.mpr (Or.inr h))
 
 end WalkLimB
 end Fsel
